@@ -79,6 +79,47 @@ fn path_costs(fl: &Flat, acts: &[Act]) -> u64 {
     total
 }
 
+/// C09 for one tour object: every cached figure against the harness' own recomputation.
+pub fn check_tour_caches(cx: &Ctx, tour: &solution::tour::Tour) -> Vec<String> {
+    let fl = &cx.flat;
+    let nodes: Vec<NodeIdx> = tour.all_nodes_iter().collect();
+    let view = tour_view(cx, &nodes, tour.is_dummy());
+    let mut out = Vec::new();
+    if !view.well_formed {
+        out.push(format!("tour {:?} is not well-formed (dummy {})", nodes.iter().map(|n| cx.node_name(*n)).collect::<Vec<_>>(), tour.is_dummy()));
+        return out;
+    }
+    let service: u64 = view.acts.iter().map(|a| fl.act_distance(*a)).sum();
+    let (dh, costs) = if tour.is_dummy() {
+        (Some(view.acts.windows(2).map(|w| fl.dh_dist[fl.act_end_loc(w[0])][fl.act_start_loc(w[1])]).sum::<u64>()), path_costs(fl, &view.acts))
+    } else {
+        let (sd, ed) = (view.start_depot.unwrap(), view.end_depot.unwrap());
+        (fl.itinerary_distances(sd, &view.acts, ed).1, fl.itinerary_costs(sd, &view.acts, ed))
+    };
+    if tour.service_distance() != Distance::from_meter(service) {
+        out.push(format!("cached service distance {} != recomputed {} m", tour.service_distance(), service));
+    }
+    let want_dh = match dh {
+        Some(d) => Distance::from_meter(d),
+        None => Distance::Infinity,
+    };
+    if tour.dead_head_distance() != want_dh {
+        out.push(format!("cached dead-head distance {} != recomputed {}", tour.dead_head_distance(), want_dh));
+    }
+    let useful: i64 = view.acts.iter().map(|a| fl.act_end(*a) - fl.act_start(*a)).sum();
+    if tour.useful_duration().in_sec().ok() != Some(useful as u64) {
+        out.push(format!("cached useful duration {} != recomputed {} s", tour.useful_duration(), useful));
+    }
+    if tour.costs() != costs {
+        out.push(format!("cached costs {} != recomputed {}", tour.costs(), costs));
+    }
+    let visits = view.acts.iter().any(|a| matches!(a, Act::Slot(_)));
+    if tour.visits_maintenance() != visits {
+        out.push(format!("cached visits-maintenance flag {} != {}", tour.visits_maintenance(), visits));
+    }
+    out
+}
+
 pub struct Opts {
     pub c09: bool,
     pub c10: bool,
@@ -338,6 +379,7 @@ pub fn validate(cx: &Ctx, s: &Schedule, opts: &Opts) -> Vec<Finding> {
 
     // ---- rotation cycles
     let mut violation_sum = 0i64;
+    let mut cycles_complete = true;
     for (ti, vt) in cx.types.iter().enumerate() {
         let tr = s.next_day_transition_of(*vt);
         let mut members: Vec<VehicleIdx> = tr.cycles_iter().flat_map(|c| c.iter()).collect();
@@ -348,6 +390,7 @@ pub fn validate(cx: &Ctx, s: &Schedule, opts: &Opts) -> Vec<Finding> {
             if opts.c10 {
                 fnd(&mut fs, "C10", format!("type {}: rotation cycles {:?} do not contain each real vehicle {:?} exactly once", ti, tr.cycles_iter().map(|c| c.get_vec().clone()).collect::<Vec<_>>(), fleet));
             }
+            cycles_complete = false;
             continue;
         }
         let mut type_violation = 0i64;
@@ -369,6 +412,7 @@ pub fn validate(cx: &Ctx, s: &Schedule, opts: &Opts) -> Vec<Finding> {
                 counter += fl.depot_transfer(a.end_depot.unwrap(), b.start_depot.unwrap());
             }
             if !ok {
+                cycles_complete = false;
                 continue;
             }
             if opts.c09 && c.maintenance_counter() != counter {
@@ -385,7 +429,7 @@ pub fn validate(cx: &Ctx, s: &Schedule, opts: &Opts) -> Vec<Finding> {
 
     // ---- schedule-level aggregates
     if opts.c09 {
-        if s.maintenance_violation() != violation_sum {
+        if cycles_complete && s.maintenance_violation() != violation_sum {
             fnd(&mut fs, "C09", format!("schedule maintenance violation {} != recomputed {} over its current cycles", s.maintenance_violation(), violation_sum));
         }
         let u = s.unserved_passengers();
